@@ -208,8 +208,8 @@ Proof.
   destruct e as [nd|nd]; [|intro H; left; exact H].
   destruct nd; cbn [vars_collect ev_spread]; try (intro H; left; exact H).
   - (* NVarDef *)
-    destruct (vs_scope st) as [[on|fn]|]; try (intro H; left; exact H).
-    destruct (as_get oname_eqb on (vs_defined st)); intro H; left; exact H.
+    destruct (vs_scope st) as [[oi on|fn]|]; try (intro H; left; exact H).
+    destruct (as_get opkey_eqb (oi, on) (vs_defined st)); intro H; left; exact H.
   - (* NArgument *)
     destruct (vs_scope st); intro H; left; exact H.
   - (* NSpread *)
@@ -237,12 +237,12 @@ Proof.
   apply cfold_spreads in H. destruct H as [[]|H]. exact H.
 Qed.
 
-Lemma vars_walk_some d pick on :
+Lemma vars_walk_some d pick oi on :
   exists acc vis,
-    vars_walk (vars_fuel d) (G7.cfold (lin_document d) vars_init) pick (ScOp on) [] [] = Some (acc, vis).
+    vars_walk (vars_fuel d) (G7.cfold (lin_document d) vars_init) pick (ScOp oi on) [] [] = Some (acc, vis).
 Proof.
   destruct (G7.walk_top (G7.cfold (lin_document d) vars_init) pick (doc_spread_names d) (vars_state_succs d)
-                        (ScOp on) (vars_fuel d) I) as (acc & vis & E & _).
+                        (ScOp oi on) (vars_fuel d) I) as (acc & vis & E & _).
   - rewrite doc_spread_names_length. unfold vars_fuel. lia.
   - exists acc, vis. exact E.
 Qed.
@@ -256,7 +256,7 @@ Lemma nuv_oof s d c : r_oof (snd (run_rule R_NoUnusedVariables s d c)) = false.
 Proof.
   cbn [run_rule]. rewrite vars_visit. cbn [snd]. unfold nuv_finish.
   apply fold_oof_false; [|reflexivity]. intros res entry _ H0.
-  destruct (vars_walk_some d (fun v => mem_name v (snd entry)) (fst entry)) as (acc & vis & E).
+  destruct (vars_walk_some d (fun v => mem_name v (snd entry)) (fst (fst entry)) (snd (fst entry))) as (acc & vis & E).
   rewrite E. cbn [r_oof]. exact H0.
 Qed.
 
@@ -264,7 +264,7 @@ Lemma nudv_oof s d c : r_oof (snd (run_rule R_NoUndefinedVariables s d c)) = fal
 Proof.
   cbn [run_rule]. rewrite vars_visit. cbn [snd]. unfold nudv_finish.
   apply fold_oof_false; [|reflexivity]. intros res entry _ H0.
-  destruct (vars_walk_some d (fun v => negb (mem_name v (snd entry))) (fst entry)) as (acc & vis & E).
+  destruct (vars_walk_some d (fun v => negb (mem_name v (snd entry))) (fst (fst entry)) (snd (fst entry))) as (acc & vis & E).
   rewrite E. cbn [r_oof]. exact H0.
 Qed.
 
@@ -328,11 +328,11 @@ Section ViapWalk.
   Proof. reflexivity. Qed.
 
   Definition vfuel_ok (fuel : nat) (from : scope) (vis : list scope) : Prop :=
-    G7.measure U vis + (match from with ScOp _ => 1 | ScFrag _ => 0 end) < fuel.
+    G7.measure U vis + (match from with ScOp _ _ => 1 | ScFrag _ => 0 end) < fuel.
 
   Definition VOK (fuel : nat) : Prop :=
     forall from errs vis,
-      (match from with ScFrag sp => In sp U | ScOp _ => True end) -> vfuel_ok fuel from vis ->
+      (match from with ScFrag sp => In sp U | ScOp _ _ => True end) -> vfuel_ok fuel from vis ->
       exists e' v', viap_walk fuel s st vds from errs vis = Some (e', v') /\ incl vis v'.
 
   Lemma vloop_total fuel (IHf : VOK fuel) : forall l errs vis,
@@ -363,8 +363,8 @@ Section ViapWalk.
                                (match as_get scope_eqb from (vp_usages st) with Some l => l | None => [] end))
                     (vis ++ [from])) as (e' & v' & E' & I').
         { intros sp Hsp. eapply HU. exact Hsp. }
-        { unfold vfuel_ok in Hfuel. destruct from as [n|sp].
-          - pose proof (G7.measure_mono U vis (vis ++ [ScOp n]) (incl_appl _ (incl_refl _))). lia.
+        { unfold vfuel_ok in Hfuel. destruct from as [oi n|sp].
+          - pose proof (G7.measure_mono U vis (vis ++ [ScOp oi n]) (incl_appl _ (incl_refl _))). lia.
           - pose proof (G7.measure_lt U vis sp HinU Hnot). lia. }
         exists e', v'. split; [exact E'|].
         intros x Hx. apply I', in_or_app. left. exact Hx.
@@ -377,7 +377,7 @@ Lemma viap_walk_some s d st vds root errs :
   exists e' v', viap_walk (vars_fuel d) s st vds root errs [] = Some (e', v').
 Proof.
   intro Hst.
-  set (U := match root with ScFrag sp => sp :: doc_spread_names d | ScOp _ => doc_spread_names d end).
+  set (U := match root with ScFrag sp => sp :: doc_spread_names d | ScOp _ _ => doc_spread_names d end).
   assert (HU : forall sc sp, In sp (vsuccs st sc) -> In sp U).
   { intros sc sp H. assert (H' : In sp (doc_spread_names d)).
     { apply Hst. apply (tget_tnames sc). exact H. }
